@@ -369,4 +369,12 @@ Section BlockwiseProofs.
       pose proof (N.mod_lt (block_width bk * N.of_nat (length bk) + 7) 8 ltac:(discriminate)) as Hm.
       nia.
   Qed.
+  Theorem blockwise_stats vals : all_u64 vals ->
+    Forall (fun v => blockwise_min (blockwise_serialize fdiv vals) <= v <= blockwise_max (blockwise_serialize fdiv vals)) vals /\
+    blockwise_num_vals (blockwise_serialize fdiv vals) = N.of_nat (length vals).
+  Proof.
+    intros Hu. pose proof (stats_of_ok fdiv fdiv_spec vals Hu) as Hok.
+    unfold blockwise_min, blockwise_max, blockwise_num_vals, blockwise_serialize.
+    rewrite (stats_wire_roundtrip fdiv fdiv_spec _ _ Hok). destruct Hok. tauto.
+  Qed.
 End BlockwiseProofs.
